@@ -1146,26 +1146,26 @@ impl Blockchain {
             old_chain.len()
         );
 
-        let previous_block_hash;
         let mut wallet_update_status = WALLET_NOT_UPDATED;
-        let has_gt;
-        {
-            let block = self.blocks.get(new_chain[0].as_ref()).unwrap();
-            previous_block_hash = block.previous_block_hash;
-            has_gt = block.has_golden_ticket;
-        }
 
         // ensure new chain has adequate mining support to be considered as
-        // a viable chain. we handle this check here as opposed to handling
-        // it in wind_chain as we only need to check once for the entire chain
-        if !self.is_golden_ticket_count_valid(
-            previous_block_hash,
-            has_gt,
-            configs.is_browser(),
-            configs.is_spv_mode(),
-        ) {
-            debug!("gt count is not valid");
-            return (false, WALLET_NOT_UPDATED);
+        // a viable chain. every block of the new chain closes its own window,
+        // so a side chain that is adopted in one step is checked block by block
+        // exactly as it would have been had it arrived as the longest chain.
+        for hash in new_chain.iter() {
+            let (previous_block_hash, has_gt) = {
+                let block = self.blocks.get(hash).unwrap();
+                (block.previous_block_hash, block.has_golden_ticket)
+            };
+            if !self.is_golden_ticket_count_valid(
+                previous_block_hash,
+                has_gt,
+                configs.is_browser(),
+                configs.is_spv_mode(),
+            ) {
+                debug!("gt count is not valid at block : {:?}", hash.to_hex());
+                return (false, WALLET_NOT_UPDATED);
+            }
         }
 
         if old_chain.is_empty() {
